@@ -170,6 +170,9 @@ def theorem_report(prop):
     return {"ok": ok, "theorems": thms, "printed": res, "log_tail": out[-3000:] if not ok else ""}
 
 
+STDLIB_AXIOMS = ["functional_extensionality_dep", "Classical_Prop.classic", "proof_irrelevance", "sig_forall_dec", "JMeq_eq", "Eqdep.Eq_rect_eq.eq_rect_eq",
+                 "propositional_extensionality", "constructive_indefinite_description", "sig_not_dec"]
+
 FORBIDDEN = re.compile(r"\b(Admitted|admit|Axiom|Parameter|Conjecture|Abort All)\b|Unset Guard|bypass_check|Admit Obligations|type-in-type|impredicative-set")
 
 
@@ -269,7 +272,14 @@ class Check:
         self.obligations += max(n, 1)
         closed = 0
         if rep["ok"] and not bad:
-            closed = n
+            for t in rep["printed"]:
+                a = t["assumptions"]
+                if a == "Closed under the global context":
+                    closed += 1
+                elif isinstance(a, list) and a and all(any(x in line for x in STDLIB_AXIOMS) or line.startswith(":") or "->" in line or "forall" in line or line.startswith("(") or line.startswith("{")
+                                                      for line in a):
+                    closed += 1
+                    self.assumptions.append(f"theorem {t['theorem']} depends on standard-library axioms: " + " ".join(a)[:300])
         self.discharged += closed
         self.notes["print_assumptions"] = rep["printed"]
         if bad:
@@ -314,7 +324,7 @@ class Check:
                 os.remove(os.path.join(REPLAYS, f))
         vio_lines = []
         seen = set()
-        for v in unknown:
+        for v in sorted(unknown, key=lambda v: v["no_input"]):
             payload = json.dumps({"property": self.prop, "what": v["what"], "replay": v["replay"], "tags": v["tags"],
                                   "replay_cmd": f"bin/check {self.prop} --replay <this file>"}, indent=1, default=str, sort_keys=True)
             h = hashlib.sha1(payload.encode()).hexdigest()[:12]
